@@ -178,6 +178,9 @@ func CheckProperty(cfg *Config, id string) int {
 	var unconfirmed []string
 	nReplayed := 0
 	for _, l := range labels {
+		if len(confirmed) >= 4 {
+			break // enough natively confirmed counterexamples; the rest are listed in the evidence
+		}
 		vs := byLabel[l]
 		// try up to 3 counterexamples per label
 		ok := false
